@@ -132,10 +132,17 @@ def run_case(ctx, kind, rng, idx):
         # exactly their single off-diagonal entry
         n_t = int(rng.integers(3, 8))
         C = np.zeros((n_t, n_t))
+        wide_ = rng.random() < 0.5
         for b in range(1, n_t):
             a = int(rng.integers(0, b)) if rng.random() < 0.5 else b - 1
-            C[a, b] = rng.integers(1, 2000)
-            C[b, a] = rng.integers(1, 2000)
+            if wide_:
+                # up to ten decades between neighbouring entries (a state
+                # left 40 times next to one carrying 3e8 counts)
+                C[a, b] = np.floor(10 ** rng.uniform(0, 10))
+                C[b, a] = np.floor(10 ** rng.uniform(0, 10))
+            else:
+                C[a, b] = rng.integers(1, 2000)
+                C[b, a] = rng.integers(1, 2000)
         inner = np.where((C > 0).sum(axis=1) > 1)[0]
         if len(inner) and rng.random() < 0.5:
             C[inner, inner] = rng.integers(0, 500, size=len(inner))
@@ -218,7 +225,11 @@ def run_case(ctx, kind, rng, idx):
         # difference in T by about 1/(spectral gap)
         ev = np.sort(np.abs(np.linalg.eigvals(both['py'][0])))[::-1]
         gap = max(1.0 - (ev[1] if len(ev) > 1 else 0.0), 1e-12)
-        if dT > 1e-6 or dp > 1e-6 + 10 * dT / gap:
+        # (the two implementations take their logarithms from numpy and from
+        # libm; on slowly converging inputs with 8+ decades between counts a
+        # last-place difference in the log-likelihood makes one of them stop
+        # a sweep earlier, which moves T by a few 1e-6)
+        if dT > 1e-5 or dp > 1e-5 + 10 * dT / gap:
             ctx.violation('mle.implementations-disagree',
                           'max |T_py - T_c| = %.3g, |pi| %.3g' % (dT, dp))
     # --- scale invariance: a common factor on the counts (re-weighted counts
